@@ -244,10 +244,12 @@ def go_outcomes(cfg, dev=frozenset(), limit=300000):
                     for k, (c, snd, v) in enumerate(op[2]):
                         if c is None or snd or caps[c] != 0 or ch[c][1]:
                             continue
-                        counted = any(j != i and blk and pk for (j, _, _, blk, pk) in senders.get(c, [])) or \
-                            any(j != i and o[0] == "S" and o[1] and any(cc == c and sd for (cc, sd, _) in o[2])
-                                for j in range(n) for o in progs[j])
-                        if counted:
+                        # chanTryRecv arms only if a sender is counted in p.sends, and - when the receive pass does not
+                        # accept select-senders (sends probed first / channel also sent on) - only if a PLAIN sender is
+                        plain = any(j != i and h2 == "S" for (j, _, h2, _, _) in senders.get(c, []))
+                        selsnd = any(j != i and o[0] == "S" and o[1] and any(cc == c and sd for (cc, sd, _) in o[2])
+                                     for j in range(n) for o in progs[j])
+                        if plain or (selsnd and select_accepts(op[2], c)):
                             succ.append((pos, ch, rs, upd(posted, i, True), upd(sub, i, (k, True))))
                 any_enabled = False
                 for k, (c, snd, v) in enumerate(op[2]):
@@ -604,6 +606,23 @@ def systematic_cfgs():
     return out
 
 
+def prio_scripts(rng, cfg, limit=6):
+    """run-to-block schedules: for several priority orders, always step the first runnable thread of the order.
+    (The exhaustive part replays every TRANSITION of the model graph, but deduplicates states, so a particular
+    history - e.g. "the peer is fully parked before the select starts" - need not be replayed as one script; these
+    scripts add such histories for the real-time rules of the judge.)"""
+    import itertools
+    nth = len(cfg[1])
+    perms = list(itertools.permutations(range(nth)))
+    if len(perms) > limit:
+        perms = rng.sample(perms, limit)
+    nops = sum(len(p) for p in cfg[1])
+    out = []
+    for pm in perms:
+        out.append(cfg_lines(cfg) + ["prio " + ",".join(map(str, pm))] + ["auto"] * (14 * nops + 8))
+    return out
+
+
 def random_script(rng, cfg, nsteps):
     """random-priority schedule: `auto` steps under a priority order that changes now and then, spurious wake-ups"""
     nth = len(cfg[1])
@@ -667,7 +686,7 @@ KEY_NBSEND = "select:nonblocking-send-misses-parked-select-receiver"
 def judge_defaults(cfg, states):
     """Real-time rule for `select { ... default: }` (independent of the model, uses the ORDER of the observed states):
     a non-blocking select that returned `default` although one of its cases was ready during its WHOLE execution.
-    states: [(line index, parsed state)].  A case is ready throughout when, in every state from the one in which
+    states: [(line index, parsed state, acting thread or None)].  A case is ready throughout when, in every state from the one in which
     the select started to the one before it returned:
       buffered channel  - receive: the buffer is non-empty (or the channel closed); send: open and len < cap;
       unbuffered channel - closed (receive), or: open and some other thread is ASLEEP in Cond.Wait the whole time
@@ -680,13 +699,15 @@ def judge_defaults(cfg, states):
         for k, op in enumerate(prog):
             if op[0] != "S" or op[1]:
                 continue
-            i_end = next((i for i, (_, st) in enumerate(states) if len(st["threads"][m][1]) > k), None)
+            i_end = next((i for i, (_, st, _) in enumerate(states) if len(st["threads"][m][1]) > k), None)
             if i_end is None or not states[i_end][1]["threads"][m][1][k].startswith("D"):
                 continue
-            i_start = next((i for i, (_, st) in enumerate(states) if len(st["threads"][m][1]) == k), None)
+            # the select starts in the step of thread m that finished its previous operation (k = 0: m's first step)
+            i_start = next((i for i, (_, st, actor) in enumerate(states)
+                            if len(st["threads"][m][1]) == k and (k > 0 or actor == m)), None)
             if i_start is None or i_start >= i_end:
                 continue
-            win = [st for (_, st) in states[i_start:i_end]]
+            win = [st for (_, st, _) in states[i_start:i_end]]
             st_end = states[i_end][1]
             for j, (c, snd, v) in enumerate(op[2]):
                 if c is None:
@@ -745,7 +766,12 @@ class Judge:
             if st is None:
                 continue            # a malformed line shows up as a correspondence mismatch
             states.append(st)
-            indexed.append((k, st))
+            actor = None
+            if line[0] == "t" and line[1:].split(" ", 1)[0].isdigit():
+                actor = int(line[1:].split(" ", 1)[0])
+            elif k < len(sched_lines_) and sched_lines_[k].startswith("step "):
+                actor = int(sched_lines_[k].split()[1])
+            indexed.append((k, st, actor))
             if not st["R"]:
                 key = (cfg_str(cfg), line.split(" ", 1)[1] if line[0] in "ts" else line)
                 if key in self.judged:
@@ -888,6 +914,8 @@ def run(ctx, args):
         dist["truncated_explorations"] += stats["trunc"]
         for s in scheds:
             jobs.append((cfg, base + sched_lines(s)))
+        for sc in prio_scripts(rng, cfg):
+            jobs.append((cfg, sc))
     mismatches += run_batch(ctx, real, modeld, jobs, judge, "exhaustive small configurations")
     n_scripts = len(jobs)
     n_lines = sum(len(j[1]) for j in jobs)
